@@ -57,7 +57,10 @@ impl Tree {
             ("support2.py".into(), if self.fault == Fault::NonUtf8ImportedModule { b"import pytest\n\n@pytest.fixture\ndef support2_fx():\n    return '\xe9'\n".to_vec() } else { b"import pytest\n\n@pytest.fixture\ndef support2_fx():\n    return 1\n".to_vec() }, self.fault != Fault::NonUtf8ImportedModule),
             ("test_a.py".into(), test_text("a").into_bytes(), true),
             ("pkg/b_test.py".into(), test_text("b").into_bytes(), true),
-            ("pkg/sub/conftest.py".into(), b"import pytest\n\n@pytest.fixture\ndef sub_fx(root_fx):\n    return 1\n".to_vec(), true),
+            // imports (absolute spelling) a module that lives two directories further up and that no
+            // other file pulls in
+            ("pkg/sub/conftest.py".into(), b"import pytest\nfrom support3 import *\n\n@pytest.fixture\ndef sub_fx(root_fx):\n    return 1\n".to_vec(), true),
+            ("support3.py".into(), b"import pytest\n\n@pytest.fixture\ndef support3_fx():\n    return 1\n".to_vec(), true),
             ("notes.py".into(), test_text("notes").into_bytes(), false),
         ];
         if let Some((i, in_pkg)) = self.near {
@@ -115,6 +118,9 @@ impl Tree {
         }
         // modules pulled in by an indexed file (each on its own: an unreadable one is skipped
         // without affecting the other)
+        if s.contains("pkg/sub/conftest.py") {
+            s.insert("support3.py".into());
+        }
         if s.contains("conftest.py") {
             s.insert("support.py".into());
             if self.fault != Fault::NonUtf8ImportedModule {
@@ -273,6 +279,6 @@ pub fn run(rep: &'static Report) {
     rep.set("distinct_nontrivial", nontrivial.load(Ordering::Relaxed));
     rep.set("traces_validated_against_impl", scans.load(Ordering::Relaxed));
     rep.set("exhaustive", true);
-    rep.set("rule", "real directory trees on tmpfs: base tree {conftest.py importing support.py and support2.py, test_a.py, pkg/b_test.py, pkg/sub/conftest.py, notes.py} with at most 2 (quick) / 3 (thorough) deviations among: one of 8 near-pattern file names at 2 places, one of 27 ignored directory names (every SKIP_DIRECTORIES entry and *.egg-info) at depth 1..3 holding a test file and a conftest, one of 4 fault kinds (non-UTF-8 test file, non-UTF-8 imported module, dangling symlink, directory named like a test file), one of 4 exclude sets given through pyproject.toml (incl. an invalid glob mixed with a valid one); every tree is created under each root location (plain and below ancestors named like ignored directories or containing 'site-packages'; the root handed over in canonical spelling, through a symbolic link living elsewhere, and with a `..` component) and scanned with the real scan_workspace_with_excludes; oracle: the indexed file set equals the reference discovery model, and every root-relative answer and classification is identical across root locations");
+    rep.set("rule", "real directory trees on tmpfs: base tree {conftest.py importing support.py and support2.py, test_a.py, pkg/b_test.py, pkg/sub/conftest.py importing the root-level support3.py, notes.py} with at most 2 (quick) / 3 (thorough) deviations among: one of 8 near-pattern file names at 2 places, one of 27 ignored directory names (every SKIP_DIRECTORIES entry and *.egg-info) at depth 1..3 holding a test file and a conftest, one of 4 fault kinds (non-UTF-8 test file, non-UTF-8 imported module, dangling symlink, directory named like a test file), one of 4 exclude sets given through pyproject.toml (incl. an invalid glob mixed with a valid one); every tree is created under each root location (plain and below ancestors named like ignored directories or containing 'site-packages'; the root handed over in canonical spelling, through a symbolic link living elsewhere, and with a `..` component) and scanned with the real scan_workspace_with_excludes; oracle: the indexed file set equals the reference discovery model, and every root-relative answer and classification is identical across root locations");
     rep.assume("permission-denied cannot be produced as root and is not covered; glob semantics are those of the glob crate (the model uses the same matcher, what is judged is how the scanner applies the patterns)");
 }
